@@ -1,0 +1,1 @@
+//! Hooks for property C29 (empty unless needed).
